@@ -12,10 +12,15 @@ use crate::{
 
 /// Per-frame oracle for client `c`.
 pub fn check_frame(cell: &ReplCell, x: &mut ReplExec, c: usize, view: &ClientView) -> Result<(), Violation> {
-    let v = |oracle: &str, detail: String| Violation::new(cell.property, oracle, detail);
+    check_sim(cell.property, &mut x.sim, c, view)
+}
+
+/// The same oracle on a bare simulation (used by the event scenario as well).
+pub fn check_sim(property: &str, sim: &mut Sim, c: usize, view: &ClientView) -> Result<(), Violation> {
+    let v = |oracle: &str, detail: String| Violation::new(property, oracle, detail);
     // No server entity may be represented twice: count client entities carrying an `A` payload
     // of each slot.
-    let world = x.sim.clients[c].app.world_mut();
+    let world = sim.clients[c].app.world_mut();
     let mut q = world.query::<(Entity, &A)>();
     let mut per_slot: std::collections::BTreeMap<u8, Vec<Entity>> = Default::default();
     for (e, a) in q.iter(world) {
@@ -29,12 +34,12 @@ pub fn check_frame(cell: &ReplCell, x: &mut ReplExec, c: usize, view: &ClientVie
             ));
         }
     }
-    for (&(pc, slot), &pre) in &x.sim.prespawned {
+    for (&(pc, slot), &pre) in &sim.prespawned {
         if pc != c {
             continue;
         }
-        let Some(server_entity) = x.sim.ent(slot) else { continue };
-        let app = &x.sim.clients[c].app;
+        let Some(server_entity) = sim.ent(slot) else { continue };
+        let app = &sim.clients[c].app;
         let pre_alive = app.world().get_entity(pre).is_ok();
         let mapped = app
             .world()
@@ -145,6 +150,40 @@ pub fn cells(tier: Tier) -> Vec<CellPlan> {
     c.oracles = Oracles { c16: true, c01: true, ..Default::default() };
     c.rounds = if q { 3 } else { 4 };
     v.push(plan(c, if q { 1 } else { 1 }, 2.0));
+
+    // Custom authorization: the game fills the entity map of a connected client before it
+    // authorizes it (the flow the documentation of the map describes).
+    {
+        use crate::events::*;
+        let mut cfg = Cfg::default();
+        cfg.events = true;
+        cfg.auth = Auth::Custom;
+        cfg.clients = vec![1200, 1200];
+        let c = EvCell {
+            name: "c16-early-auth".into(),
+            property: "C16",
+            cfg,
+            connect_at_start: vec![],
+            init: vec![Op::Spawn(0, cells::AB)],
+            alphabet: vec![
+                EvOp::Nop,
+                EvOp::Connect(0),
+                EvOp::Connect(1),
+                EvOp::World(Op::MapPreEarly(0, 1)),
+                EvOp::World(Op::MapPreEarly(1, 2)),
+                EvOp::Authorize(0),
+                EvOp::Authorize(1),
+                EvOp::World(Op::Mut(1, TA)),
+                EvOp::EmitS(SK::EI, Mode::Broadcast, None),
+            ],
+            rounds: if q { 4 } else { 5 },
+            tick_choice: true,
+            env: EvEnv { hold_updates: 1, hold_events: false, reorder: false, drop_unreliable: false, hold_client_events: false, hold_mutations: false, hold_acks: false, update_latency: 0, update_batch: 0 },
+            oracles: EvOracles { c16: true, convergence: true, ..Default::default() },
+            closure_rounds: 5,
+        };
+        v.push(plan(c, if q { 0 } else { 1 }, 2.0));
+    }
     v
 }
 
